@@ -340,13 +340,18 @@ func runCtxEndCase(e *Env, idx int, c XCase) (hangSig string) {
 			s := out.Err.Error()
 			nodeFailure := c.Behaviour == "refuse" || c.Behaviour == "tarpit-reconnect"
 			switch {
-			case nodeFailure && (strings.Contains(s, "stream is down") || errors.Is(out.Err, gorums.Incomplete)):
+			case nodeFailure && (unavailableType(s) || errors.Is(out.Err, gorums.Incomplete)):
+				// the connection to the node was torn down before the call: a write on the dead stream fails with the bare
+				// transport EOF or an Unavailable status, whether or not the context has ended meanwhile
 				R.Count("outcome.node_error_before_ctx", 1)
 			case errors.Is(out.Err, gorums.Incomplete) && strings.Contains(s, "stream is down") && c.Traffic == "8-goroutines":
 				// concurrent calls whose contexts ended made gorums reset the stream: a connection error for this call
 				R.Count("outcome.node_error_from_foreign_reset", 1)
 			case strings.Contains(s, "stream is down") && c.Traffic == "8-goroutines":
 				R.Count("outcome.node_error_from_foreign_reset", 1)
+			case errors.Is(out.Err, gorums.Incomplete) && !strings.Contains(s, "context canceled") && !strings.Contains(s, "context deadline exceeded") && !strings.Contains(s, "code = Canceled"):
+				// every node had answered (or failed for its own reasons) just before the context ended: exhaustion came first
+				R.Count("outcome.exhausted_just_before_ctx_end", 1)
 			default:
 				det["error"] = s
 				R.Violate("error-does-not-match-ctx:"+callClass(c.Method)+":"+errShape(s), fmt.Sprintf("%s returned %q after its context ended with %v", c.Method, trunc(s, 160), ctxErr), det)
